@@ -501,3 +501,195 @@ theorem cancelled_implies_lost {p : Params} {s : State} (h : Reach p s) :
     | tick hg => exact ih
 
 end Eru.Lock.Etcd
+
+namespace Eru.Lock.Etcd
+
+/-! ### the schedule replay of the oracle only visits reachable states -/
+
+/-- no client is in the window between losing its lease and its watcher running -/
+def NoPending (s : State) : Prop := ∀ i t, ¬ pendingLoss s i t
+
+structure Good (p : Params) (s : State) : Prop where
+  reach : Reach p s
+  np : NoPending s
+
+theorem good_ticks {p : Params} {s : State} (h : Good p s) (n : Nat) : Good p { s with wall := s.wall + n } := by
+  induction n with
+  | zero => exact h
+  | succ n ih =>
+    refine ⟨Reach.step ih.reach (Step.tick _ (fun i t hp => absurd hp (ih.np i t))), ?_⟩
+    intro i t hp; exact ih.np i t hp
+
+theorem good_wall_to {p : Params} {s : State} (h : Good p s) (w : Nat) (hw : s.wall ≤ w) :
+    Good p { s with wall := w } := by
+  have := good_ticks h (w - s.wall)
+  have e : s.wall + (w - s.wall) = w := by omega
+  rw [e] at this; exact this
+
+theorem good_acquire {p : Params} {s : State} (h : Good p s) (i : Nat) (m : Mode)
+    (hi : s.phase i = .idle) (hl : s.leaseAlive i = true) : Good p (acquire p.ttl s i m) := by
+  refine ⟨Reach.step h.reach (Step.acquire s i m hi hl), ?_⟩
+  intro j t ⟨hc, hlk, hlt⟩
+  rw [acquire_lostAt] at hlt
+  by_cases hji : j = i
+  · subst hji; rw [(inv_reach h.reach).l3 j hl] at hlt; cases hlt
+  · rw [acquire_ctx_other _ _ _ _ hji] at hc
+    rw [acquire_locked_other _ _ _ _ hji] at hlk
+    exact h.np j t ⟨hc, hlk, hlt⟩
+
+theorem good_abandon_timeout {p : Params} {s : State} (h : Good p s) (i dl : Nat)
+    (hi : s.phase i = .waiting dl) (hdl : dl ≤ s.wall) : Good p (abandon s i) :=
+  ⟨Reach.step h.reach (Step.timeout s i dl hi hdl), fun j t hp => h.np j t hp⟩
+
+theorem good_abandon_try {p : Params} {s : State} (h : Good p s) (i : Nat)
+    (hi : s.phase i = .tryFailing) : Good p (abandon s i) :=
+  ⟨Reach.step h.reach (Step.tryDelete s i hi), fun j t hp => h.np j t hp⟩
+
+theorem good_unlock {p : Params} {s : State} (h : Good p s) (i : Nat)
+    (hi : s.phase i = .holding ∨ s.phase i = .failed) : Good p (unlock s i) := by
+  refine ⟨Reach.step h.reach (Step.unlock s i hi), ?_⟩
+  intro j t ⟨hc, hlk, hlt⟩
+  by_cases hji : j = i
+  · subst hji; simp [unlock, upd] at hlk
+  · simp only [unlock, upd, hji, if_false] at hc hlk hlt
+    exact h.np j t ⟨hc, hlk, hlt⟩
+
+theorem good_waitDone {p : Params} {s : State} (h : Good p s) (i dl : Nat)
+    (hi : s.phase i = .waiting dl) (hno : ∀ k ∈ s.keys, ¬ k.2 < s.myRev i) : Good p (waitDone s i) := by
+  refine ⟨Reach.step h.reach (Step.waitDone s i dl hi hno), ?_⟩
+  intro j t hp
+  unfold waitDone at hp
+  split at hp
+  · rename_i hc
+    obtain ⟨hc', hlk, hlt⟩ := hp
+    by_cases hji : j = i
+    · subst hji
+      have hmem : (j, s.myRev j) ∈ s.keys := by simpa using hc
+      have := (inv_reach h.reach).l3 j ((inv_reach h.reach).k3 _ hmem).2
+      simp only at hlt; rw [this] at hlt; cases hlt
+    · simp only [upd, hji, if_false] at hc' hlk
+      exact h.np j t ⟨hc', hlk, hlt⟩
+  · exact h.np j t hp
+
+theorem good_revoke {p : Params} {s : State} (h : Good p s) (i : Nat) (hl : s.leaseAlive i = true) :
+    Good p (if (loseLease s i).ctx i = .live ∧ (loseLease s i).locked i = true then watch (loseLease s i) i
+            else loseLease s i) := by
+  have r1 := Reach.step h.reach (Step.loseLease s i hl)
+  have others : ∀ j t, j ≠ i → ¬ pendingLoss (loseLease s i) j t := by
+    intro j t hji ⟨hc, hlk, hlt⟩
+    simp only [loseLease, upd, hji, if_false] at hc hlk hlt
+    exact h.np j t ⟨hc, hlk, hlt⟩
+  split
+  · rename_i hw
+    refine ⟨Reach.step r1 (Step.watch _ i (by simp [loseLease, upd]) hw.1 hw.2), ?_⟩
+    intro j t ⟨hc, hlk, hlt⟩
+    by_cases hji : j = i
+    · subst hji; simp [watch, upd] at hc
+    · simp only [watch, upd, hji, if_false] at hc
+      exact others j t hji ⟨hc, hlk, hlt⟩
+  · rename_i hw
+    refine ⟨r1, ?_⟩
+    intro j t ⟨hc, hlk, hlt⟩
+    by_cases hji : j = i
+    · subst hji; exact hw ⟨hc, hlk⟩
+    · exact others j t hji ⟨hc, hlk, hlt⟩
+
+theorem good_expire {p : Params} : ∀ (l : List Nat) (s : State), Good p s →
+    Good p (l.foldl (fun st i => match st.phase i with
+      | .waiting dl => if dl ≤ st.wall then abandon st i else st
+      | _ => st) s) := by
+  intro l
+  induction l with
+  | nil => intro s h; exact h
+  | cons i l ih =>
+    intro s h
+    simp only [List.foldl_cons]
+    apply ih
+    split
+    · rename_i dl hi
+      split
+      · rename_i hdl; exact good_abandon_timeout h i dl hi hdl
+      · exact h
+    · exact h
+
+/-- **exec_reach (etcd).**  Every command of a schedule is a finite sequence of `Step`s (the time
+    jumps are `tick`s, whose urgency guard is vacuous because replayed schedules run the watcher
+    right after a lease loss). -/
+theorem exec_good {p : Params} {s : State} (h : Good p s) (c : Cmd) : Good p (exec p.ttl s c).1 := by
+  cases c with
+  | lock i =>
+    simp only [exec]
+    split
+    · rename_i hg
+      have ga := good_acquire h i .lock hg.1 (by simpa using hg.2)
+      rcases acquire_self p.ttl s i .lock with ⟨_, hp, _⟩ | ⟨_, _, _, ⟨hm, _⟩ | ⟨_, hp⟩⟩
+      · simp only [hp]; exact ga
+      · cases hm
+      · simp only [hp]
+        have gw := good_ticks ga p.ttl
+        exact good_abandon_timeout gw i (s.wall + p.ttl) hp (by simp [acquire_wall])
+    · exact h
+  | tryLock i =>
+    simp only [exec]
+    split
+    · rename_i hg
+      have ga := good_acquire h i .try hg.1 (by simpa using hg.2)
+      rcases acquire_self p.ttl s i .try with ⟨_, hp, _⟩ | ⟨_, _, _, ⟨_, hp⟩ | ⟨hm, _⟩⟩
+      · simp only [hp]; exact ga
+      · simp only [hp]; exact good_abandon_try ga i hp
+      · cases hm
+    · exact h
+  | unlock i =>
+    simp only [exec]
+    split
+    · rename_i hi; exact good_unlock h i (Or.inl hi)
+    · rename_i hi; exact good_unlock h i (Or.inr hi)
+    · exact h
+  | lockAsync i =>
+    simp only [exec]
+    split
+    · rename_i hg; exact good_acquire h i .lock hg.1 (by simpa using hg.2)
+    · exact h
+  | join i =>
+    simp only [exec]
+    split
+    · rename_i dl hi
+      split
+      · rename_i hno
+        refine good_waitDone h i dl hi ?_
+        intro k hk
+        simp only [noOlder, List.all_eq_true, Bool.not_eq_true', decide_eq_false_iff_not] at hno
+        exact hno k hk
+      · have gw := good_wall_to h (max s.wall dl) (Nat.le_max_left _ _)
+        exact good_abandon_timeout gw i dl hi (Nat.le_max_right _ _)
+    · exact h
+    · exact h
+  | sleep dt =>
+    simp only [exec, expireWaiters]
+    exact good_expire _ _ (good_ticks h dt)
+  | revoke i =>
+    simp only [exec]
+    split
+    · rename_i hl; exact good_revoke h i (by simpa using hl)
+    · exact h
+  | observe i => exact h
+
+theorem good_init (p : Params) : Good p init := ⟨Reach.init, fun i t hp => by simp [pendingLoss, init] at hp⟩
+
+def replayStates (ttl : Nat) : State → List Cmd → List State
+  | _, [] => []
+  | s, c :: cs => (exec ttl s c).1 :: replayStates ttl (exec ttl s c).1 cs
+
+theorem replay_reach {p : Params} : ∀ (cs : List Cmd) (s : State), Good p s →
+    ∀ s' ∈ replayStates p.ttl s cs, Reach p s' := by
+  intro cs
+  induction cs with
+  | nil => intro s _ s' h; cases h
+  | cons c cs ih =>
+    intro s h s' hm
+    simp only [replayStates, List.mem_cons] at hm
+    rcases hm with e | hm
+    · subst e; exact (exec_good h c).reach
+    · exact ih _ (exec_good h c) s' hm
+
+end Eru.Lock.Etcd
